@@ -47,9 +47,11 @@ def run(job):
         faultfs.YIELD_IO = False
         faultfs.S.enabled = False
     kw = {k: v for k, v in (kw or {}).items() if k != 'yield_io'}
+    plan = kw.pop('plan', None)
+    order = kw.pop('order', None)
     c = sd.consts('file', NOid=6, MaxTxn=20, MaxRecs=5, MaxClock=8, AtomVals=('v1', 'v2'), RefSets='AllRefs', Cls='MCClsPlain')
     rc = dict(c, Cls=sd.cls_map(c))
-    rp = sd.StorageReplayer('file', rc, workdir, {})
+    rp = sd.StorageReplayer('file', rc, workdir, {'fs_kw': {'blob_dir': os.path.join(workdir, 'blobs')}} if scen.get('blob_dir') else {})
     out = {'scen': scen, 'seed': seed, 'errors': {}, 'reads': [], 'commits': [], 'outcome': None, 'obs': None, 'obs_reopen': None,
            'pack_outcomes': []}
     try:
@@ -72,7 +74,10 @@ def run(job):
             out['commits'].append((rp.tids.model(commit(stores, i + 1)), [list(s) for s in stores], i + 1))
         clk_now = len(scen['init']) + 1
         clock.CLOCK.set(clk_now)
-        Sc = sched.S = sched.Sched(seed, **(kw or {}))
+        if plan is not None:
+            Sc = sched.S = sched.Plan(plan, order)
+        else:
+            Sc = sched.S = sched.Sched(seed, **(kw or {}))
 
         def packer(name):
             def body():
@@ -117,6 +122,7 @@ def run(job):
         sched.S = None
         out['errors'] = {k: '%s: %s' % (type(v).__name__, str(v)[:200]) for k, v in Sc.errors.items()}
         out['switches'] = sum(1 for a, b in zip(Sc.choices, Sc.choices[1:]) if a != b)
+        out['yields'] = dict(getattr(Sc, 'yields', {}))
         if out['outcome'] == 'ok' and not out['errors']:
             try:
                 out['obs'] = observe(rp)
